@@ -140,6 +140,13 @@ def _replay_chunk(keys):
             if why:
                 mismatches.append({"h": list(pre), "at": n, "why": why,
                                    "call": cfg.calls[k - 1]})
+                if render:
+                    try:
+                        from .render import check_modsampling
+                        for pred, detail in check_modsampling(run.seq, P.project(run.seq, ctx)):
+                            hookv.append((pred, pre, detail))
+                    except Exception:  # noqa: BLE001
+                        pass
                 if relations:
                     try:
                         for pred, detail in check_relations(cfg, run, ctx, P.project(run.seq, ctx)):
